@@ -20,6 +20,13 @@ SUITES["breaker"] = dict(
     batches={"quick": 4, "thorough": 16}, timeout={"quick": 300, "thorough": 3000},
 )
 
+SUITES["strategy"] = dict(
+    test="TestStrategy", coq_module="Cases.StrategyCase", case_type="str_case", eval="eval_str_case",
+    cols=["diff", "mon_rr", "mon_wrr_exact", "mon_wrr_bound", "mon_lc", "mon_affinity", "mon_valid", "mon_remap",
+          "cls_wrr_removed", "nt_c05", "nt_c06"],
+    batches={"quick": 4, "thorough": 16}, timeout={"quick": 300, "thorough": 3000},
+)
+
 PROPS = {
     "C09": dict(
         props_file="Props/C09.v",
@@ -74,6 +81,43 @@ PROPS["C08"] = dict(
                "decided at balancer level (lbseq suite), not here.",
     trusted_base=["model Model/Breaker.v of internal/circuitbreaker/circuitbreaker.go (hand-written; tied by the breaker suite)"],
     assumptions=["virtual time is non-decreasing", "in-flight requests eventually end"],
+)
+
+PROPS["C06"] = dict(
+    props_file="Props/C06.v", gen=["JumpGen"],
+    suites=[dict(suite="strategy", corr=["diff"], monitors=["mon_affinity", "mon_valid", "mon_remap"],
+                 classifiers={}, nontrivial="nt_c06")],
+    rule="real IPHash / IPHashConsistent strategy objects: 18 client strings (IPv4, IPv6, zone, lists, spaces, junk) via XFF / "
+         "X-Real-IP / RemoteAddr with varying port and path, the same clients before and after append / flag / remove; direct "
+         "jumpHash calls on 34 adversarial 32-bit keys (extreme LCG iterates, found by exhaustive search), LCG-inverted 64-bit keys "
+         "and random keys over consecutive bucket counts; non-trivial = >= 2 eligible backends (or n >= 2); distinct = by case hash",
+    level_text="Theorems for all 2^64 keys and all pool sizes < 2^31 about the jump-hash loop REGENERATED FROM SOURCE by go2coq "
+               "(termination, range, minimal remapping jh k (n+1) in {jh k n, n}), lifted to the strategy (append moves a client only "
+               "to the new backend), affinity and validity for both hash strategies. FNV-1a, client-string extraction and the "
+               "strategy glue are hand models tied by running the real strategies on the same requests.",
+    level_note="Trusted: Coq kernel, go2coq's arithmetic translator (typed expressions with explicit wrap-around), harness; "
+               "net.SplitHostPort is an oracle (harness passes Go's result); hash/fnv is modelled and validated by the runs.",
+    trusted_base=["go2coq arithmetic translator (Gen/JumpGen.v)", "Model/Strategy.v, Model/Hash.v (hand-written parts)"],
+    assumptions=["pool sizes below 2^31", "hash/fnv New32a is FNV-1a 32-bit (validated by correspondence)"],
+)
+
+PROPS["C05"] = dict(
+    props_file="Props/C05.v",
+    suites=[dict(suite="strategy", corr=["diff"], monitors=["mon_rr", "mon_wrr_exact", "mon_wrr_bound", "mon_lc"],
+                 classifiers={"wrr-stale-after-removal": "cls_wrr_removed"}, nontrivial="nt_c05")],
+    rule="real RoundRobin / WeightedRoundRobin / LeastConnections strategy objects: pools 1..8, weights 1..6, stretches of picks "
+         "separated by add / remove / flag changes, in-flight counts 0..3, concurrent pickers (2..64 goroutines, 6720 picks) for the "
+         "exact round-robin counts; non-trivial = n >= 2 and (WRR) unequal weights or a preceding membership/health event, "
+         "(LC) >= 2 distinct in-flight counts; distinct = by case hash",
+    level_text="Theorems: round-robin index formula and exact counting over any n*m consecutive counter values; smooth WRR "
+               "exactness from a fresh pool (each backend exactly w_i of W picks, state returns to fresh) and therefore every "
+               "sliding window of W picks; lag identity; least-connections minimality. The bound for WRR after arbitrary histories is "
+               "refuted after removals (witness) and otherwise only monitored on implementation traces, not proved (partial). "
+               "Tie: same operation sequences on the real strategy objects, pick by pick.",
+    level_note="Trusted: Coq kernel, harness, Model/Strategy.v. atomic.AddUint64 is assumed atomic; concurrency of round robin is "
+               "exercised with 2..64 goroutines (exact per-backend totals), not proved beyond the atomic-step argument.",
+    trusted_base=["Model/Strategy.v (hand-written; tied by the strategy suite)"],
+    assumptions=["counter window does not cross 2^64", "weights >= 1 (AddBackend clamp, decided with the lbseq suite)"],
 )
 
 # properties not claimed, each with a one-line reason (kept current as checks are added)
